@@ -216,8 +216,13 @@ async def _run_history(
                 return None, info
             continue
         if kind == "sleep":
+            attempts_before = len(transport.attempts)
             await asyncio.sleep(float(op[1]))  # meaningful on the virtual-time loop
             hooks["_clock"].advance(float(op[1]))  # the process clocks (time.monotonic, time.time) move along
+            classes["op:sleep"] += 1
+            spontaneous = [line for _s, line, _f in transport.attempts[attempts_before:]]
+            if spontaneous and aspects & {"writes", "vquery", "presreq", "flush", "sendwrites"}:
+                return bad("write-without-received-message", f"{op[1]} s passed with nothing received, and the controller wrote {spontaneous!r}", idx), info
             continue
         if kind == "tick":
             hooks["_clock"].advance(float(op[1]))  # time passes for time.monotonic()/time.time() only (usable on a real loop)
@@ -234,6 +239,15 @@ async def _run_history(
 
                 model.nodes[str(node_id)] = _new_node(node_id, 17, "2.0")
             continue
+        if kind == "remove":
+            # the application removes a node from the registry (a device that was decommissioned)
+            node_id = int(op[1])
+            gateway.nodes.pop(node_id, None)
+            transport.forgotten = getattr(transport, "forgotten", []) + [(len(getattr(transport, "wire", [])), node_id)]  # (id free again from here on)
+            model.nodes.pop(str(node_id), None)
+            model.reboot.discard(node_id)
+            classes["op:remove"] += 1
+            continue
         if kind == "metric":
             gateway.config.metric = bool(op[1])  # the application changes its configuration in place
             model.metric = bool(op[1])
@@ -249,14 +263,19 @@ async def _run_history(
             continue
         if kind == "send":
             info["sends_seen"] = True
-            _k, fields, buffer = op
+            _k, fields, buffer = op[0], op[1], op[2]
             if fields[2] != 1:
                 # the application sends something that is not a set command (a value request, an internal command):
                 # it is written now or held by the library for a sleeping destination (C12 judges that) - what the
                 # properties here care about is that it leaves the parked set commands and the reactions alone
                 from vf.codec_ref import ref_format as _ref_format
 
-                status, value = await env.send(gateway, env.mk_message(fields), buffer)
+                saved_preds = (transport.fail_pred, transport.hang_pred)
+                transport.fail_pred = transport.hang_pred = None  # injected faults are aimed at the receive path's own writes
+                try:
+                    status, value = await env.send(gateway, env.mk_message(fields), buffer)
+                finally:
+                    transport.fail_pred, transport.hang_pred = saved_preds
                 got = transport.writes_at(idx)
                 own = _ref_format(*fields)
                 classes["send-other-command"] += 1
@@ -280,7 +299,16 @@ async def _run_history(
                     classes["park-overwrite"] += 1
                 if flushed_before:
                     classes["re-park-after-flush"] += 1
-            status, value = await env.send(gateway, env.mk_message(fields), buffer)
+            message = env.mk_message(fields)
+            if len(op) > 3 and op[3] == "reuse":
+                # the application keeps one Message object per command and sets its fields before each send
+                previous = info.setdefault("sent_objects", {}).get(key)
+                if previous is not None and not (had_key and expected):  # (never edit an object that is sitting in the sleep buffer and stays there)
+                    message = previous
+                    message.ack, message.payload = fields[3], fields[5]
+                    classes["send-reused-object"] += 1
+            info.setdefault("sent_objects", {})[key] = message
+            status, value = await env.send(gateway, message, buffer)
             got = transport.writes_at(idx)
             classes["send-parked" if not expected else "send-direct"] += 1
             if status == "leak" and "leak" in aspects:
@@ -343,9 +371,21 @@ async def _run_history(
             info["diverged"] = True
             classes["diverged-elsewhere"] += 1
             return None, info
+        def query_owed_but_missing() -> bool:
+            # whatever else went wrong with this step: a decoded message received while the version is unknown is followed by
+            # the version query (version reports themselves excepted: whether they made the version known is part of the divergence)
+            fields = pred.fields
+            if "vquery" not in aspects or model.version is not None or fields is None or pred.version_exempt:
+                return False
+            if (fields[2] == 3 and fields[4] == 2) or (fields[2] == 0 and fields[0] == 0 and fields[1] == 255):
+                return False
+            return VERSION_QUERY not in rec.writes and not any(failed for _s, _l, failed in rec.attempts)
+
         if rec.outcome == "leak":
             if "leak" in aspects:
                 return bad(f"leak:{env.exc_sig(rec.value)}", f"{rec.value!r}", idx), info
+            if query_owed_but_missing():
+                return bad(f"version-query:missing:{mk}", f"no version query although the version is unknown (the step ended in {rec.value!r})", idx), info
             info["diverged"] = True
             classes["diverged-elsewhere"] += 1
             return None, info
@@ -375,6 +415,8 @@ async def _run_history(
                     owed_missing["<time reply>"] += 1
                 if owed_missing:
                     return bad(f"reaction-refused:{mk}:{rec.outcome}", f"owed {sorted(owed_missing)!r} but the message was refused: {rec.value!r}", idx), info
+            if query_owed_but_missing():
+                return bad(f"version-query:missing:{mk}", f"no version query although the version is unknown (outcome {rec.outcome}, predicted {pred.outcomes})", idx), info
             info["diverged"] = True
             classes["diverged-elsewhere"] += 1
             return None, info
